@@ -387,6 +387,9 @@ def _inline_exception_tuples(tree):
     for s in tree.body:
         if isinstance(s, ast.Assign) and len(s.targets) == 1 and isinstance(s.targets[0], ast.Name) and isinstance(s.value, (ast.Tuple, ast.List)) and s.value.elts and all(isinstance(e, ast.Constant) for e in s.value.elts):
             lits[s.targets[0].id] = s.value
+        # the keys of a constant dict, for membership tests (`x in TABLE`) and loops over it
+        elif isinstance(s, ast.Assign) and len(s.targets) == 1 and isinstance(s.targets[0], ast.Name) and isinstance(s.value, ast.Dict) and s.value.keys and all(isinstance(e, ast.Constant) for e in s.value.keys):
+            lits[s.targets[0].id] = ast.Tuple(elts=list(s.value.keys), ctx=ast.Load())
     if lits:
         nst = {}
         for n in ast.walk(tree):
@@ -1291,6 +1294,9 @@ def _inline_module_helpers(trees):
                 defs_of_name = sum(1 for t2 in trees for f2 in ast.walk(t2) if isinstance(f2, (ast.FunctionDef, ast.AsyncFunctionDef, ast.ClassDef)) and f2.name == nm)
                 if defs_of_name != 1:
                     continue
+                # references from a module-level dispatch table `{key: helper, ...}` (already expanded into calls by
+                # _expand_dispatch_tables) do not count as uses; the definition is then kept for the table
+                table_refs = sum(1 for s_ in tree.body if isinstance(s_, ast.Assign) and isinstance(s_.value, ast.Dict) for v_ in s_.value.values if isinstance(v_, ast.Name) and v_.id == nm)
                 importers = [t2 for t2 in trees if t2 is not tree and any(isinstance(s_, ast.ImportFrom) and any(al.name == nm and al.asname is None for al in s_.names) for s_ in t2.body)]
                 n_import_refs = sum(1 for t2 in importers for s_ in t2.body if isinstance(s_, ast.ImportFrom) for al in s_.names if al.name == nm)
                 free = {x.id for s_ in body for x in ast.walk(s_) if isinstance(x, ast.Name) and isinstance(x.ctx, ast.Load)} - {x.arg for x in a.args + a.kwonlyargs} - {x.id for s_ in body for x in ast.walk(s_) if isinstance(x, ast.Name) and not isinstance(x.ctx, ast.Load)}
@@ -1335,7 +1341,7 @@ def _inline_module_helpers(trees):
                                     call = st.value if isinstance(st, (ast.Expr, ast.Return)) else (st.value if isinstance(st, ast.Assign) and len(st.targets) == 1 else None)
                                     if isinstance(call, ast.Call) and isinstance(call.func, ast.Name) and call.func.id == nm and not any(s_[3] is st for s_ in sites):
                                         sites.append((g, blk, call, st))
-                if not sites or len(sites) > 6 or name_refs.get(nm, 0) != len(sites) + n_import_refs:
+                if not sites or len(sites) > 6 or name_refs.get(nm, 0) != len(sites) + n_import_refs + table_refs:
                     continue
                 subs = [_substitute_call(h, 0, body, rets, st, call, g, nm) for g, blk, call, st in sites]
                 if any(s_ is None for s_ in subs):
@@ -1350,7 +1356,8 @@ def _inline_module_helpers(trees):
                             if not s_.names:
                                 t2.body.remove(s_)
                     ast.fix_missing_locations(t2)
-                tree.body.remove(h)
+                if not table_refs:
+                    tree.body.remove(h)
                 ast.fix_missing_locations(tree)
                 changed = True
         if not changed:
@@ -1815,35 +1822,38 @@ def _unroll_record_objects(trees):
                             i += len(new)
                         else:
                             i += 1
-            # 2. record locals
-            for owner in ast.walk(F):
-                for fld in ("body", "orelse", "finalbody"):
-                    blk = getattr(owner, fld, None)
-                    if not (isinstance(blk, list) and blk and isinstance(blk[0], ast.stmt)):
-                        continue
-                    for i, s in enumerate(list(blk)):
-                        if not (isinstance(s, ast.Assign) and len(s.targets) == 1 and isinstance(s.targets[0], ast.Name)):
-                            continue
-                        fv = ctor(s.value)
-                        r = s.targets[0].id
-                        if fv is None:
-                            continue
-                        if sum(1 for x in ast.walk(F) if isinstance(x, ast.Name) and x.id == r and isinstance(x.ctx, (ast.Store, ast.Del))) != 1:
-                            continue
-                        parents = {id(c_): p_ for p_ in ast.walk(F) for c_ in ast.iter_child_nodes(p_)}
-                        uses = [x for x in ast.walk(F) if isinstance(x, ast.Name) and x.id == r and isinstance(x.ctx, ast.Load)]
-                        if not all(isinstance(parents.get(id(u)), ast.Attribute) and parents[id(u)].value is u and isinstance(parents[id(u)].ctx, ast.Load) and parents[id(u)].attr in dict(fv) for u in uses):
-                            continue
-                        if any(isinstance(x, (ast.FunctionDef, ast.Lambda)) and any(u is y for u in uses for y in ast.walk(x)) and x is not F for x in ast.walk(F)):
-                            continue
-                        for u in uses:
-                            a = parents[id(u)]
-                            new = ast.copy_location(ast.Name(id=f"{r}__{a.attr}", ctx=ast.Load()), a)
-                            a.__class__ = ast.Name
-                            a.__dict__.clear()
-                            a.__dict__.update(new.__dict__)
-                        k = next(j for j, x in enumerate(blk) if x is s)
-                        blk[k : k + 1] = [ast.fix_missing_locations(ast.copy_location(ast.Assign(targets=[ast.Name(id=f"{r}__{f}", ctx=ast.Store())], value=v), s)) for f, v in fv]
+            # 2. record locals (every binding of the name is a constructor call of one record class, possibly one per branch)
+            cands = {}
+            for x in ast.walk(F):
+                if isinstance(x, ast.Assign) and len(x.targets) == 1 and isinstance(x.targets[0], ast.Name) and ctor(x.value) is not None:
+                    cands.setdefault(x.targets[0].id, []).append(x)
+            for r, assigns in cands.items():
+                if len({a.value.func.id for a in assigns}) != 1:
+                    continue
+                n_store = sum(1 for x in ast.walk(F) if isinstance(x, ast.Name) and x.id == r and isinstance(x.ctx, (ast.Store, ast.Del)))
+                if n_store != len(assigns) or r in {a.arg for a in F.args.posonlyargs + F.args.args + F.args.kwonlyargs}:
+                    continue
+                fnames = fields[assigns[0].value.func.id]
+                parents = {id(c_): p_ for p_ in ast.walk(F) for c_ in ast.iter_child_nodes(p_)}
+                uses = [x for x in ast.walk(F) if isinstance(x, ast.Name) and x.id == r and isinstance(x.ctx, ast.Load)]
+                if not all(isinstance(parents.get(id(u)), ast.Attribute) and parents[id(u)].value is u and isinstance(parents[id(u)].ctx, ast.Load) and parents[id(u)].attr in fnames for u in uses):
+                    continue
+                if any(isinstance(x, (ast.FunctionDef, ast.Lambda)) and x is not F and any(u is y for u in uses for y in ast.walk(x)) for x in ast.walk(F)):
+                    continue
+                for u in uses:
+                    a = parents[id(u)]
+                    new = ast.copy_location(ast.Name(id=f"{r}__{a.attr}", ctx=ast.Load()), a)
+                    a.__class__ = ast.Name
+                    a.__dict__.clear()
+                    a.__dict__.update(new.__dict__)
+                for s_ in assigns:
+                    fv = ctor(s_.value)
+                    for owner in ast.walk(F):
+                        for fld in ("body", "orelse", "finalbody"):
+                            blk = getattr(owner, fld, None)
+                            if isinstance(blk, list) and any(x is s_ for x in blk):
+                                k = next(j for j, x in enumerate(blk) if x is s_)
+                                blk[k : k + 1] = [ast.fix_missing_locations(ast.copy_location(ast.Assign(targets=[ast.Name(id=f"{r}__{f}", ctx=ast.Store())], value=v), s_)) for f, v in fv]
         ast.fix_missing_locations(t)
 
 
@@ -1924,7 +1934,10 @@ def _expand_dispatch_tables(trees):
                             return s2
 
                         boolkeys = {k for k, _ in arms} <= {True, False} and isinstance(key, ast.Call) and isinstance(key.func, ast.Name) and key.func.id == "bool" and len(key.args) == 1
-                        node = _copy.deepcopy(st)  # final arm: the original dynamic call
+                        # final arm: what the original does for a key outside the table - `D[K]` raises KeyError (at the
+                        # call or where the local was bound), `D.get(K)` yields None and calling None raises TypeError
+                        via_get = isinstance(call.func, ast.Name) and any(isinstance(x, ast.Call) and isinstance(x.func, ast.Attribute) and x.func.attr == "get" for s2 in ast.walk(F) if isinstance(s2, ast.Assign) and len(s2.targets) == 1 and isinstance(s2.targets[0], ast.Name) and s2.targets[0].id == call.func.id for x in ast.walk(s2.value))
+                        node = ast.Raise(exc=ast.Call(func=ast.Name(id="TypeError" if via_get else "KeyError", ctx=ast.Load()), args=[], keywords=[]), cause=None)
                         if boolkeys and {k for k, _ in arms} == {True, False}:
                             d = dict(arms)
                             node = ast.If(test=_copy.deepcopy(key.args[0]), body=[mk(d[True])], orelse=[mk(d[False])])
